@@ -25,7 +25,7 @@ theorem doStart_spec (P : Params) (hP : P.Good) (s : State) (hsOk : Bool) (h : I
     (doStart P s hsOk).1.pendingKills = s.pendingKills ∧
     (∀ a, (doStart P s hsOk).2 = .okAddr a → (doStart P s hsOk).1.addr = some a) ∧
     (∀ c, (doStart P s hsOk).2 ≠ .okClient c) := by
-  obtain ⟨h1, h2, h3, h4, h5⟩ := hP
+  obtain ⟨h1, h2, h3, h4, h5, h6⟩ := hP
   obtain ⟨a1, a2, a3, a4, a5, a6, a7, a8, a9, a10, a11⟩ := h
   unfold doStart
   simp only [h1, h2, h5, if_true, Bool.true_and, Bool.and_true]
@@ -96,7 +96,7 @@ theorem doClient_spec (P : Params) (hP : P.Good) (s : State) (connOk : Bool) (h 
     Inv (doClient P s connOk).1 ∧ (doClient P s connOk).1.launch = s.launch ∧ (doClient P s connOk).1.runner = s.runner ∧
     (doClient P s connOk).1.launches = s.launches ∧ (doClient P s connOk).1.pendingKills = s.pendingKills ∧
     (doClient P s connOk).1.curDir = s.curDir := by
-  obtain ⟨h1, h2, h3, h4, h5⟩ := hP
+  obtain ⟨h1, h2, h3, h4, h5, h6⟩ := hP
   obtain ⟨a1, a2, a3, a4, a5, a6, a7, a8, a9, a10, a11⟩ := h
   unfold doClient
   simp only [h3, if_true]
@@ -255,5 +255,126 @@ theorem step_launch (P : Params) (s s' : State) (e : Event) (hs : step P s e = s
 theorem reachable_launch (P : Params) (l : Launch) (alive : Bool) (s : State) (h : Reachable P l alive s) : s.launch = l :=
   reachable_induction (Inv := fun s => s.launch = l) (by cases l <;> simp [init])
     (fun s e s' hi hs => by rw [step_launch P s s' e hs]; exact hi) s h
+
+end GoPlugin.Lifecycle
+
+/-! ### Generations of clients (reattach from `ReattachConfig()`) -/
+namespace GoPlugin.Lifecycle
+
+/-- a freshly built reattach client satisfies the invariant, in any world -/
+theorem inv_fresh (l : Launch) (procs : Nat → Option Bool) (n : Nat) (t : Option Nat) :
+    Inv { init l true with procs := procs, nProcs := n, target := t } := by
+  cases l <;> constructor <;> simp [init]
+
+theorem inv_runFrom (P : Params) (hP : P.Good) : ∀ (es : List Event) (s s' : State), Inv s → runFrom P s es = some s' → Inv s' := by
+  intro es
+  induction es with
+  | nil => intro s s' h hr; simp [runFrom] at hr; exact hr ▸ h
+  | cons e es ih =>
+    intro s s' h hr
+    simp only [runFrom] at hr
+    cases hs : step P s e with
+    | none => simp [hs] at hr
+    | some s1 => rw [hs] at hr; exact ih s1 s' (inv_step P hP s s1 e h hs) hr
+
+theorem launch_runFrom (P : Params) : ∀ (es : List Event) (s s' : State), runFrom P s es = some s' → s'.launch = s.launch := by
+  intro es
+  induction es with
+  | nil => intro s s' hr; simp [runFrom] at hr; exact hr ▸ rfl
+  | cons e es ih =>
+    intro s s' hr
+    simp only [runFrom] at hr
+    cases hs : step P s e with
+    | none => simp [hs] at hr
+    | some s1 => rw [hs] at hr; rw [ih s1 s' hr, step_launch P s s1 e hs]
+
+/-- what a new generation looks like -/
+theorem nextGen_spec (P : Params) (s s1 : State) (h : nextGen P s = some s1) :
+    Inv s1 ∧ s1.procs = s.procs ∧
+    (∀ test, s.launch = .reattach test → s1.launch = .reattach (test && P.reattachConfigKeepsTest)) ∧
+    (s.launch = .cmd ∨ s.launch = .runnerFunc → s1.launch = .reattach false) := by
+  unfold nextGen reattachConfigOf at h
+  cases ha : s.addr with
+  | none => simp [ha] at h
+  | some a =>
+    cases hl : s.launch with
+    | reattach test =>
+      simp only [ha, hl, Option.some.injEq] at h
+      subst h
+      exact ⟨inv_fresh _ _ _ _, rfl, by intro t ht; cases ht; simp [init], by intro h; cases h <;> contradiction⟩
+    | cmd =>
+      simp only [ha, hl, Option.some.injEq] at h
+      subst h
+      exact ⟨inv_fresh _ _ _ _, rfl, (by intro t ht; cases ht), (by intro _; simp [init])⟩
+    | runnerFunc =>
+      simp only [ha, hl, Option.some.injEq] at h
+      subst h
+      exact ⟨inv_fresh _ _ _ _, rfl, (by intro t ht; cases ht), (by intro _; simp [init])⟩
+
+/-- with `reattachConfigKeepsTest`, test mode is inherited by every generation -/
+theorem chainFrom_test (P : Params) (hP : P.Good) : ∀ (rest : List (List Event)) (s s' : State),
+    Inv s → s.launch = .reattach true → chainFrom P s rest = some s' → Inv s' ∧ s'.launch = .reattach true := by
+  intro rest
+  induction rest with
+  | nil => intro s s' hi hl h; simp [chainFrom] at h; exact h ▸ ⟨hi, hl⟩
+  | cons es rest ih =>
+    intro s s' hi hl h
+    simp only [chainFrom] at h
+    cases hn : nextGen P s with
+    | none => simp [hn] at h
+    | some s1 =>
+      rw [hn] at h
+      simp only at h
+      cases hr : runFrom P s1 es with
+      | none => simp [hr] at h
+      | some s2 =>
+        rw [hr] at h
+        simp only at h
+        obtain ⟨hi1, _, hl1, _⟩ := nextGen_spec P s s1 hn
+        have hl1' : s1.launch = .reattach true := by
+          have := hl1 true hl
+          simpa [hP.2.2.2.2.2] using this
+        exact ih s2 s' (inv_runFrom P hP es s1 s2 hi1 hr) (by rw [launch_runFrom P es s1 s2 hr]; exact hl1') h
+
+/-- a client without a runner, reattached in test mode, does not touch the process table: only the
+process itself (`procDies`) does -/
+theorem step_procs_norunner (P : Params) (s s' : State) (e : Event) (t : Bool) (hl : s.launch = .reattach t)
+    (hr : s.runner = none) (he : ∀ p, e ≠ .procDies p) (hs : step P s e = some s') : s'.procs = s.procs := by
+  have hds : ∀ b, (doStart P s b).1.procs = s.procs := by
+    intro b; unfold doStart; rw [hl]
+    repeat' split
+    all_goals simp_all
+  have hdc : ∀ (s0 : State) b, (doClient P s0 b).1.procs = s0.procs := by
+    intro s0 b; unfold doClient
+    repeat' split
+    all_goals simp_all
+  cases e with
+  | start b => simp only [step, Option.some.injEq] at hs; subst hs; simp [emit, hds]
+  | client a b =>
+    simp only [step] at hs
+    have h1 := hds a
+    cases hd : doStart P s a with
+    | mk s1 o =>
+      rw [hd] at hs h1
+      simp only at h1
+      cases o <;> simp only [Option.some.injEq] at hs <;> subst hs <;> simp [emit, hdc, h1]
+  | protocol a =>
+    simp only [step] at hs
+    have h1 := hds a
+    cases hd : doStart P s a with
+    | mk s1 o =>
+      rw [hd] at hs h1
+      simp only at h1
+      cases o <;> simp only [Option.some.injEq] at hs <;> subst hs <;> simp [emit, h1]
+  | reattachConfig => simp only [step, Option.some.injEq] at hs; subst hs; simp [emit]
+  | id => simp only [step, Option.some.injEq] at hs; subst hs; simp [emit]
+  | exited => simp only [step, Option.some.injEq] at hs; subst hs; simp [emit]
+  | killA a b => simp only [step, hr, Option.some.injEq] at hs; subst hs; simp [emit]
+  | killB =>
+    simp only [step] at hs
+    split at hs
+    · simp only [Option.some.injEq] at hs; subst hs; simp [emit]
+    · simp at hs
+  | procDies p => exact absurd rfl (he p)
 
 end GoPlugin.Lifecycle
